@@ -193,3 +193,23 @@ def census(facts):
                         out.append(V('CENSUS', 'refuted', path, 'field ' + f['name'],
                                      'invariant-bearing field is public', a.get('span'), facts.config))
     return n, out, counts
+
+
+def who_may_call(facts, callee_name, allowed_callers):
+    """every call site of the crate-local function `callee_name` lies in one of the allowed callers"""
+    out = []
+    n = 0
+    for b in facts.bodies.values():
+        for bi, t in b.calls():
+            lb = t['callee'].get('local_body')
+            if lb and facts.bodies[lb].name == callee_name:
+                n += 1
+                if b.name not in allowed_callers:
+                    out.append(V('MUSTPASS', 'refuted', b.id, callee_name,
+                                 '%s is called from %s, which does not run the overlap pre-check' % (callee_name, b.name),
+                                 t.get('span'), facts.config))
+    if n == 0:
+        out.append(V('MUSTPASS', 'unproven', '<crate>', callee_name, 'no call site of %s found' % callee_name, None,
+                     facts.config))
+        n = 1
+    return n, out
